@@ -142,7 +142,10 @@ impl Sender {
             Api::Flow => {
                 let mut f = Flow::new(req).map_err(|e| format!("Flow::new: {:?}", e))?;
                 match kind {
-                    Kind::DespiteGet => f.send_body_despite_method(),
+                    Kind::DespiteGet => {
+                        // as a statement: what the call returns is not part of any statement
+                        f.send_body_despite_method();
+                    }
                     Kind::DespiteSized(n, header_first) => {
                         // the two Prepare-state calls commute
                         if header_first {
